@@ -355,6 +355,35 @@ func checkOne(c *runlib.Ctx, w witness, id, name string, u *url.URL, m mask) (re
 		}
 	}
 
+	// The two functions used one after the other: the result of RedactUserinfo
+	// is a URL with (masked) userinfo like any other, so redacting it again
+	// gives the same text, and an error about the original URL handled with
+	// the redacted URL gets that text.
+	if before.User != nil {
+		c.Eval()
+		var r3 *url.URL
+		top := newURLError(beforeStr)
+		if pv, _ := runlib.Try(func() {
+			r3 = urlutil.RedactUserinfo(r)
+			urlutil.RedactUserinfoInURLError(r, top)
+		}); pv != nil {
+			c.Violation(ekey+"/chained/panic", edesc+"): the result of RedactUserinfo redacted again / used with an error: "+panicText(pv), w)
+		} else {
+			if r3 == nil || r3.String() != wantText {
+				c.Violation(key+"/twice", fmt.Sprintf("%s: RedactUserinfo of the result prints as %v, want %s", desc, r3, enum.Hex(wantText)), w)
+			}
+
+			if top.URL != wantText || top.Op != "Get" || top.Err != inner {
+				c.Violation(ekey+"/chained", fmt.Sprintf("RedactUserinfoInURLError(RedactUserinfo(URL %s with userinfo %s), &url.Error{URL: %s}): the error is now {Op:%s URL:%s Err:%v}, want URL %s",
+					id, name, enum.Hex(beforeStr), enum.Hex(top.Op), enum.Hex(top.URL), top.Err, enum.Hex(wantText)), w)
+			}
+
+			if r.String() != res.str {
+				c.Violation(key+"/twice/input", desc+": redacting the result again changed it", w)
+			}
+		}
+	}
+
 	// A wrapped *url.Error is not a top-level one.
 	in := newURLError(beforeStr)
 	wrapped := fmt.Errorf("wrapped: %w", in)
